@@ -288,6 +288,10 @@ def mdetCompare (U : Universe) (ms : Resolvo.MDet.S) (o : Resolvo.MDet.Outcome) 
         if !(r.graphNodes.isEmpty && r.graphEdges.isEmpty) && rge != r.graphEdges then
           [s!"oracle-fail C03,C06 mdet-graph: the ordered graph model has other edges: implementation [{" ".intercalate r.graphEdges}] model [{" ".intercalate rge}]"]
         else
+        let gvImpl := (r.other.find? (fun l => l.startsWith "graphviz-hex ")).map (fun l => (l.drop 13).toString)
+        if gvImpl.isSome && gvImpl != some (hexOf (Resolvo.Render.graphviz U rg)) then
+          [s!"oracle-fail C04,C06 mdet-graphviz: the graphviz form differs: implementation `{gvImpl.getD ""}` model `{hexOf (Resolvo.Render.graphviz U rg)}`"]
+        else
         match Resolvo.Render.render U rg with
         | some text =>
           if hexOf text == r.message then ["info mdet-message 1"]
